@@ -24,6 +24,9 @@ import glob
 import argparse
 import errno
 
+# Only spellings whose token type does not depend on the language standard or on the
+# declarations in the analysed code: 'true', 'false', 'inline' and 'restrict' can be
+# identifiers (C89, C++), a token with such a spelling is then a variable or enumerator.
 tokTypes = {
     '+': ['eArithmeticalOp'],
     '-': ['eArithmeticalOp'],
@@ -44,8 +47,6 @@ tokTypes = {
     '&': ['eBitOp'],
     '^': ['eBitOp'],
     '~': ['eBitOp'],
-    'true': ['eBoolean'],
-    'false': ['eBoolean'],
     '{': ['eBracket'],
     '}': ['eBracket'],
     '<': ['eBracket', 'eComparisonOp'],
@@ -79,9 +80,7 @@ tokTypes = {
     'for': ['eKeyword'],
     'goto': ['eKeyword'],
     'if': ['eKeyword'],
-    'inline': ['eKeyword'],
     'register': ['eKeyword'],
-    'restrict': ['eKeyword'],
     'return': ['eKeyword'],
     'sizeof': ['eKeyword'],
     'static': ['eKeyword'],
